@@ -315,6 +315,11 @@ impl Recv {
                 .pending_recv
                 .push_back(&mut self.buffer, Event::InformationalHeaders(message));
             stream.notify_recv();
+            if stream.state.is_recv_end_stream() {
+                // An interim response that (wrongly) ends the stream: no more
+                // push promises can arrive on it either.
+                stream.notify_push();
+            }
         }
 
         Ok(())
